@@ -1,5 +1,5 @@
 #!/usr/bin/env python3
-"""C12 / C14, real-process layer: several executors of one user report into ONE journal.
+"""C12 / C13 / C14, real-process layer: several executors of one user report into ONE journal.
 
 echsd's run_task() opens the owner's journal afresh for every start (O_RDWR|O_CREAT, no O_APPEND), moves to
 its end and hands that descriptor to echsx as stdout.  The not-run report of C12 (`echsx -v -nd', an entry with
@@ -21,7 +21,10 @@ BEGIN:VTODO..END:VTODO entries, exactly one per execution (and one of the stand-
 X-EXIT-STATUS:3 without X-SIGNAL / X-SIGNAL:24 / STATUS:CANCELLED.
 
 options (--opt k=v):
-  set=all|notrun|killed   all placements, or those with a not-run report (C12) / a run killed at its limit (C14)
+  set=all|notrun|killed|exit
+                          all placements, or those with a not-run report (C12) / a run killed at its limit (C14) /
+                          a job that simply exits with status 3 (C13: "records the job's true exit status ... in the
+                          journal entry" -- also when the journal is busy at the moment the job ends)
   echsx=PATH              binary under test (default /repo/src/echsx)
   bdir=DIR                accepted for symmetry with the other E3 drivers (nothing is needed from it)
   keep=1                  keep the case directories
@@ -44,6 +47,9 @@ CASES = [
     ('queue', ('killed', 'killed')),
     ('queue', ('exit', 'notrun')),
     ('queue', ('killed', 'notrun')),
+    # added for C13 (set=exit): nothing but plain exits queueing for the lock, two and three of them
+    ('queue', ('exit', 'exit')),
+    ('queue', ('exit', 'exit', 'exit')),
 ]
 
 OLDER = ('BEGIN:VTODO\nDTSTAMP:20260101T000001Z\nUID:c12j-older\nDTSTART:20260101T000000Z\nCOMPLETED:20260101T000001Z\n'
@@ -284,7 +290,7 @@ def main():
     D = Drv()
     echsx = D.opt('echsx', '/repo/src/echsx')
     which = D.opt('set', 'all')
-    if which not in ('all', 'notrun', 'killed'):
+    if which not in ('all', 'notrun', 'killed', 'exit'):
         sys.stderr.write('c12_journal: unknown set %s\n' % which)
         return 2
     if not os.path.exists(echsx):
